@@ -40,6 +40,9 @@ func main() {
 			"the tool handlers park at a gate (each signals that it is inside, the harness waits at most 6 s until all are), every 5th request is answered by its second stage instead and must be answered while the others are parked, then tools/list, ping, " +
 			"resources/list, another tools/call and a call refused by the first stage are sent on the same session while the handlers are parked and must pass the chain and be answered, then the gates open (legacy SSE: 40 at a time, the session's answer queue has 100 slots) " +
 			"and every answer is collected; chains of three stages mixing pass / modify-request / modify-result; every request is evaluated like all others (exact onion trace, each stage once, expected answer, right id) and emits its model line with the number of requests in flight; " +
+			"a result that is a map is stamped IN PLACE by the result-modifying stages (mark + the nonce of the request being worked on), everything else is re-built; " +
+			"shared-result phase, sequential and first (st-json, st-postsse, legacy SSE; two servers in one process, A with two middlewares, B with none): per method a stamped request on A, then one on A that passes no modifying stage, then one on B, " +
+			"then two more stamped ones on A and another on B: the unstamped answers must carry no mark or stamp (middleware:result-shared-between-requests:<method>:<tr>), every answer's stamp must name its own request; " +
 			"non-trivial = a distinct (transport, option form, chain, method) with at least two stages of which one is not pass-through",
 		Run: run})
 }
@@ -330,6 +333,9 @@ func run(c *hk.Ctx) {
 		groups[key] = append(groups[key], tc)
 	}
 	nServers := 0
+	if replay == nil {
+		nServers += sharedResults(c, bases, len(order)+3000) // first: decides whether results may be stamped in place
+	}
 	for si, key := range order {
 		g := groups[key]
 		tc0 := g[0]
@@ -702,6 +708,14 @@ func evaluate(c *hk.Ctx, s *server, tc *tcase, b baseline) {
 		c.Violate(hk.Violation{Fingerprint: fp + suffix, What: what, Input: input, Observed: gotTags, Expected: wantTags})
 	}
 	// 2. what the client received
+	if rm, ok := tc.ans.msg["result"].(map[string]any); ok && tc.r != nil {
+		// a modification is for that request only: the stamp of a result-modifying stage names the request it worked on
+		if st, has := rm["_stamp"]; has && st != tc.r.nonce {
+			c.Violate(hk.Violation{Fingerprint: "middleware:result-carries-another-requests-modification" + suffix,
+				What:  "the answer carries the stamp a result-modifying middleware wrote for ANOTHER request (a result object shared between requests)",
+				Input: input, Observed: st, Expected: tc.r.nonce})
+		}
+	}
 	gotResp := canonResp(tc.ans.msg, tc.m, b.base)
 	if js(gotResp) != js(wantResp) {
 		fp, what := "middleware:result-differs", "the client did not receive the handler's result as modified by the chain"
